@@ -17,6 +17,7 @@ __thread GuardCtx *t_guard = nullptr;
 segv_hook_t g_segv_hook = nullptr;
 LibInfo g_lib;
 volatile uint64_t g_call_seq = 0;
+__thread int t_watchdog_pause = 0; // >0 while the thread is parked by the scheduler seam
 
 std::string strf(const char *fmt, ...)
 {
@@ -182,6 +183,7 @@ bool Arena::classify(void *addr, FaultInfo &fi) const
         return true; // inside the arena but not in this run's slots: stale from an earlier run
 }
 
+extern __thread int t_watchdog_pause;
 const char *fault_class_name(int c)
 {
         static const char *n[] = { "none", "guard_after", "guard_before", "released", "slack", "libdata", "stray", "abort", "ud", "hang" };
@@ -240,7 +242,7 @@ static void on_tick(int, siginfo_t *, void *uc)
         static uint64_t last_seq = 0;
         static int same = 0;
         GuardCtx *g = t_guard;
-        if (!g || !g->armed) {
+        if (!g || !g->armed || t_watchdog_pause) {
                 same = 0;
                 return;
         }
